@@ -46,6 +46,36 @@ Theorem C01_reports_exact :
 Proof. exact @model_run_exact. Qed.
 Print Assumptions C01_reports_exact.
 
+(* multiple groups and files: whatever the sequence of Load calls that built the engine's rule set -- files with syntax
+   rules, files with comment rules only, files whose groups are all filtered out, files importing rule bundles (whose last
+   file may have no syntax rule) -- the set holds the files' rules in load order and a run reports exactly what the
+   specification says for that rule list; in particular the counter that lets a run skip the walk is zero only if no
+   bucket holds a rule.  [built] is closed under loading a file and merging sets (mergeRuleSets / appendScopedRuleSet,
+   whose bookkeeping is read from source on this run). *)
+Theorem C01_reports_exact_after_any_load_history :
+  forall (mdata : Type) (M : rule -> N -> list (mdata * bool)) s rs crs fuel n,
+  wf gen_spec n -> (height n < fuel)%nat ->
+  gen_built s rs crs ->
+  (forall r, In r rs -> In (r_tag r) pattern_tags /\ gen_loadable r = true) ->
+  (forall r o, In r rs -> In o (gen_offered n) -> M r (fst o) <> [] -> In (snd o) (compat_spec (r_tag r))) ->
+  model_run_set M s fuel n = Some (spec_file gen_multi mdata M rs (gen_offered n)) /\ rs_comments s = crs.
+Proof. exact @model_run_set_exact. Qed.
+Print Assumptions C01_reports_exact_after_any_load_history.
+
+(* Engine.Load after Engine.Load (first set as it is, every further one merged after it; a file that imports bundles is
+   its own rules followed by the bundle files' rules): the engine holds a [built] set with all rules in load order *)
+Theorem C01_engine_load_history_is_built :
+  forall f files, exists s, gen_engine_of (f :: files) = Some s /\
+    gen_built s (List.concat (map file_rules (f :: files))) (List.concat (map file_comments (f :: files))).
+Proof. exact (engine_of_built gen_place_err gen_place_fan gen_cmode gen_kmode gen_nb). Qed.
+Print Assumptions C01_engine_load_history_is_built.
+
+Theorem C01_merge_bookkeeping_ok :
+  count_mode_ok gen_cmode = true /\ gen_kmode = CommentsAppend /\ gen_load_counts_each_rule = true /\ gen_merge_starts_empty = true /\
+  gen_engine_load_first_direct_then_merge_after = true /\ gen_loadfile_merges_own_then_imported = true.
+Proof. exact gen_bookkeeping_ok. Qed.
+Print Assumptions C01_merge_bookkeeping_ok.
+
 (* what the specification says per node *)
 Theorem C01_first_accepting_rule_wins :
   forall (mdata : Type) (M : rule -> N -> list (mdata * bool)) rs n tag, gen_multi tag = false ->
@@ -97,6 +127,26 @@ Example c01_demo_run :
   option_map (map (fun p => (r_id (fst p), snd p))) (model_run demo_M demo_rules 20 (demo_tree None)) =
   Some [(2, 201); (2, 203); (1, 300); (3, 400); (2, 207); (0, 100); (2, 213); (2, 215)].
 Proof. vm_compute. reflexivity. Qed.
+(* a load history: Match rules, then a file with comment rules only, then a file importing a bundle whose last file has
+   no syntax rule -- the counter stays non-zero and the run still reports for the rules of the first file *)
+Definition demo_files : list file_desc :=
+  [ ([ {| r_id := 0; r_tag := tidx "Ident" |}; {| r_id := 1; r_tag := gen_tag_StmtList |} ], [], []);
+    ([], [50; 51], []);
+    ([], [], [([ {| r_id := 2; r_tag := tidx "Ident" |}; {| r_id := 3; r_tag := tidx "BlockStmt" |} ], []); ([], [52])]) ].
+Example c01_demo_history :
+  match gen_engine_of demo_files with
+  | Some s => (negb (N.eqb (rs_cnum s) 0), rs_comments s,
+               option_map (map (fun p => (r_id (fst p), snd p))) (model_run_set demo_M s 20 (demo_tree None)))
+  | None => (false, [], None)
+  end = (true, [50; 51; 52], Some [(2, 201); (2, 203); (1, 300); (3, 400); (2, 207); (0, 100); (2, 213); (2, 215)]).
+Proof. vm_compute. reflexivity. Qed.
+(* a merge that keeps only the last set's counter would skip the walk although rules are loaded *)
+Example c01_last_counter_refuted :
+  let a := load_set [] [] [ {| r_id := 0; r_tag := 5 |} ] [] in
+  let b := load_set [] [] [] [7] in
+  let s := merge2 CountLast CommentsAppend 49 a b in
+  rs_cnum s = 0 /\ rs_buckets s 5 <> [].
+Proof. exact count_last_refuted. Qed.
 (* the loop of the unrepaired tree ("matched" = verdict of the last callback) lets a second rule report too *)
 Example c01_last_verdict_loop_refuted :
   map (fun p => r_id (fst p))
